@@ -74,6 +74,11 @@ pub struct Cfg {
     /// the "other" native denom of foreign attempts differs from the stake denom only in letter case
     #[serde(default)]
     pub near_denom: bool,
+    /// Some((u, k)): user u (not the separate owner account) instantiates the contract and attaches k
+    /// coins of its native stake-denom balance to the call (a transfer to the contract like any other
+    /// donation - not a bond)
+    #[serde(default)]
+    pub init_funds: Option<(u8, u16)>,
 }
 
 #[derive(Clone, Debug, Serialize, Deserialize, PartialEq)]
@@ -313,8 +318,9 @@ pub fn case_strategy(_prop: &str, tier: Tier) -> BoxedStrategy<Case> {
         period_strategy(),
         proptest::collection::vec(funds_strategy().prop_map(N), N_USERS),
         proptest::bool::weighted(0.4),
+        proptest::option::weighted(0.15, (0u8..N_USERS as u8, 1u16..5000)),
     )
-        .prop_map(|(cw20, tpw, min_bond, period, funds, near_denom)| Cfg { cw20, tpw: N(tpw), min_bond, period, funds, near_denom });
+        .prop_map(|(cw20, tpw, min_bond, period, funds, near_denom, init_funds)| Cfg { cw20, tpw: N(tpw), min_bond, period, funds, near_denom, init_funds });
     let ops = proptest::collection::vec(op_group(), 0..=max_ops).prop_map(|g| g.into_iter().flatten().collect::<Vec<_>>());
     (cfg, ops).prop_map(|(cfg, ops)| Case { cfg, ops }).boxed()
 }
@@ -425,6 +431,8 @@ struct World {
     period: Period,
     /// the foreign native denom of this case
     other_denom: &'static str,
+    /// coins of the stake denom were attached to the instantiate call (holdings may exceed the books)
+    init_donation: bool,
 }
 
 fn root_msg(e: &anyhow::Error) -> String {
@@ -665,9 +673,20 @@ fn build_world(cfg: &Cfg, ctx: &mut CaseCtx) -> Result<Option<World>, Violation>
         },
         admin: None,
     };
+    // who instantiates, and with which coins attached
+    let (creator, attached): (Addr, Vec<Coin>) = match cfg.init_funds {
+        Some((u, k)) => {
+            let u = u as usize % N_USERS;
+            let have = app.wrap().query_balance(users[u].to_string(), DENOM).map(|c| c.amount.u128()).unwrap_or(0);
+            let k = (k as u128).min(have);
+            (users[u].clone(), if k > 0 { vec![coin(k, DENOM)] } else { vec![] })
+        }
+        None => (owner.clone(), vec![]),
+    };
+    let init_donation = !attached.is_empty();
     let r = {
         let app = &mut app;
-        catch_unwind(AssertUnwindSafe(|| app.instantiate_contract(stake_id, owner.clone(), &msg, &[], "stake", None)))
+        catch_unwind(AssertUnwindSafe(|| app.instantiate_contract(stake_id, creator.clone(), &msg, &attached, "stake", None)))
     };
     let stake = match r {
         Ok(Ok(a)) => a,
@@ -683,7 +702,7 @@ fn build_world(cfg: &Cfg, ctx: &mut CaseCtx) -> Result<Option<World>, Violation>
     if let Some(m) = &main20 {
         watched.push(m.clone());
     }
-    Ok(Some(World { app, users, watched, stake, main20, other20, tpw, min_bond, period: cfg.period.clone(), other_denom }))
+    Ok(Some(World { app, users, watched, stake, main20, other20, tpw, min_bond, period: cfg.period.clone(), other_denom, init_donation }))
 }
 
 /// claims of one user grouped by release date (zero totals dropped): the ledger is
@@ -783,7 +802,7 @@ pub fn run_case(prop: &str, case: &Case, ctx: &mut CaseCtx) -> Result<(), Violat
     if pre.stake.iter().any(|s| *s != 0) || pre.claims.iter().any(|c| !c.is_empty()) {
         return Err(v("stake-delta", "a fresh contract reports stakes or claims".to_string()));
     }
-    let mut donated = false;
+    let mut donated = w.init_donation;
     check_state(&w, &pre, donated, "after instantiate", ctx)?;
 
     // ledger of unreleased claims: per user, release key -> (sum, earliest permitted payout)
@@ -1265,7 +1284,8 @@ fn d_cfg(u: Un) -> Cfg {
         funds.push(N(f));
     }
     let near_denom = arb_bool(u, 2, 5);
-    Cfg { cw20, tpw: N(tpw), min_bond, period, funds, near_denom }
+    let init_funds = if arb_bool(u, 1, 7) { Some((arb_below(u, N_USERS) as u8, 1 + u.int_in_range(0u16..=4998).unwrap_or(0))) } else { None };
+    Cfg { cw20, tpw: N(tpw), min_bond, period, funds, near_denom, init_funds }
 }
 
 /// Byte decoder for C10 cases: configuration, then up to 40 op groups (the quick tier's
